@@ -22,6 +22,8 @@ import PfVerif.Driver.FitNum
 import PfVerif.Driver.WWModule
 import PfVerif.Driver.HedgerSession
 import PfVerif.Driver.GridSys
+import PfVerif.Driver.MultiSession
+import PfVerif.Driver.Autogreek
 namespace PfVerif.Driver
 open Lean
 
@@ -70,6 +72,8 @@ def dispatch (op : String) (j : Json) : R Json :=
   | "ww_module" => opWwModule j
   | "hedger_session" => opHedgerSession j
   | "grid_sys" => opGridSys j
+  | "multi_session" => opMultiSession j
+  | "autogreek" => opAutogreek j
   | _ => .error s!"unknown op {op}"
 
 end PfVerif.Driver
